@@ -41,6 +41,18 @@ func scaleUpDisturbed(rec *ScanRecord, gr *GroupRec) bool {
 	return len(gr.Failed) > 0
 }
 
+// cloudPathDisturbed: an injected failure hit a call the cloud half of a scale-up depends on
+// (describe / increase / attach / list). Failed node reads and writes only reduce the number
+// of nodes actually untainted.
+func cloudPathDisturbed(rec *ScanRecord, gr *GroupRec) bool {
+	for _, e := range append(append([]sim.Entry{}, rec.Prelude...), gr.Seg...) {
+		if e.Injected && e.Kind != sim.ATerminateInASG && e.Kind != sim.KDelete && e.Kind != sim.KGet && e.Kind != sim.KUpdate {
+			return true
+		}
+	}
+	return false
+}
+
 // notInGroupHit reports whether some DeleteNodes call of the scan answered not-in-group.
 func notInGroupHit(rec *ScanRecord) bool {
 	for _, gr := range rec.Groups {
@@ -311,6 +323,36 @@ func (w *World) CheckAll(rec *ScanRecord) []Violation {
 	out = append(out, w.M15(rec)...)
 	out = append(out, w.M19(rec)...)
 	out = append(out, w.M20(rec)...)
+	out = append(out, w.MCache(rec)...)
+	return out
+}
+
+// MCache: the objects served by the node and pod listers belong to the informer cache;
+// escalator must not change them. A scan that leaves the cache view different from what it
+// was served (a taint planted on a cached node whose update was refused, a taint appended by
+// a dry group, a request quantity rewritten in place) corrupts what later scans and other
+// groups see. Reported under the properties such a corruption breaks.
+func (w *World) MCache(rec *ScanRecord) []Violation {
+	var out []Violation
+	diff := ""
+	if len(w.V.Nodes) != len(rec.View.Nodes) || len(w.V.Pods) != len(rec.View.Pods) {
+		diff = "number of cached objects changed"
+	}
+	for i := 0; diff == "" && i < len(w.V.Nodes); i++ {
+		if !reflect.DeepEqual(w.V.Nodes[i], rec.View.Nodes[i]) {
+			diff = fmt.Sprintf("cached node %s: served with taints %v, now %v", rec.View.Nodes[i].Name, briefTaints(rec.View.Nodes[i]), briefTaints(w.V.Nodes[i]))
+		}
+	}
+	for i := 0; diff == "" && i < len(w.V.Pods); i++ {
+		if !reflect.DeepEqual(w.V.Pods[i], rec.View.Pods[i]) {
+			diff = fmt.Sprintf("cached pod %s was modified", rec.View.Pods[i].Name)
+		}
+	}
+	if diff != "" {
+		for _, prop := range []string{"C08", "C11", "C13", "C15"} {
+			out = append(out, viol(prop, "informer-cache-object-mutated", "the scan modified an object of the informer cache: %s", diff))
+		}
+	}
 	return out
 }
 
@@ -723,9 +765,10 @@ func (w *World) M07(rec *ScanRecord) []Violation {
 	next:
 		// (iii) exact remainder when N is known exactly
 		ex := w.Expectation(rec, gr)
-		if scaleUpDisturbed(rec, gr) {
+		if cloudPathDisturbed(rec, gr) {
 			continue
 		}
+		nodeFailures := len(gr.Failed) > 0
 		K, R, nreq, cloudFailed := brought(gr)
 		if cloudFailed {
 			continue
@@ -740,7 +783,7 @@ func (w *World) M07(rec *ScanRecord) []Violation {
 			if P < wantK {
 				wantK = P
 			}
-			if K != wantK {
+			if K != wantK && !nodeFailures {
 				out = append(out, viol("C07", "recover-untaint-count", "group %d: need %d, %d tainted, untainted %d", gr.G, N, P, K))
 			}
 			// a group past its cool-down that still behaves as locked breaks C02's release half
@@ -778,7 +821,7 @@ func (w *World) M07(rec *ScanRecord) []Violation {
 			if targets, _ := requestedTargets(w, rec, gr); nreq > 0 && K+R < ex.Need && targets[0] < B {
 				out = append(out, viol("C07", "remainder-too-small", "group %d: need %d, untainted %d, requested only %d although the target %d stays below the bound %d", gr.G, ex.Need, K, R, targets[0], B))
 			}
-			if nreq == 0 && K < ex.Need && K == P && cur < B {
+			if nreq == 0 && K < ex.Need && (K == P || nodeFailures) && len(left) == 0 && cur < B {
 				out = append(out, viol("C07", "no-request-for-remainder", "group %d: need %d, untainted all %d tainted nodes, desired %d below the bound %d, yet no cloud request", gr.G, ex.Need, K, cur, B))
 			}
 		}
